@@ -282,6 +282,13 @@ def require_all(
     def authenticate(req: falcon.Request) -> AuthContext:
         claims = gate(req)
         if inner is None:
+            if claims.get("verified") == "false":
+                # The gate let the request through without verifying it
+                # (proxy_proof_gate in ``allow`` mode). It proceeds, but as the
+                # anonymous request it is: a gate that verified nothing must not
+                # mint an authenticated identity. The attribution still records
+                # why, so rollout dashboards keep working.
+                return AuthContext(domain=None, authenticated=False, claims={gate.claims_key: claims})
             return AuthContext(
                 domain=gate.name,
                 authenticated=True,
